@@ -2004,6 +2004,10 @@ static void exec_mpi(Plan const& p, Report& rep)
                         (unsigned long long) a);
                     if (cnt != want_cnt)
                     {
+                        rep.fail("C02", "evaluations", fmt("%s %s mpi sub-communicator", integ_name(p.integ), nt_name(p.nt)), fmt(
+                            "iteration %llu, group %llu: rank %llu of a communicator of %llu ranks evaluated %llu of %llu calls, its share is %llu",
+                            (unsigned long long) k, (unsigned long long) g, (unsigned long long) r, (unsigned long long) a,
+                            (unsigned long long) cnt, (unsigned long long) N, (unsigned long long) want_cnt));
                         rep.fail("C16", "share-sizes", k16, fmt(
                             "iteration %llu, group %llu, rank %llu of the sub-communicator: %llu calls, expected %llu",
                             (unsigned long long) k, (unsigned long long) g, (unsigned long long) r, (unsigned long long) cnt,
